@@ -62,7 +62,28 @@ PerformanceSeries(X, axis, bt, t) ==
      [k \in 1..NumSlices(X, axis) |-> Cat("hit", Table(PairsOf(X, i, axis, k), bt, t, t))])]
 \* ---- against: the forecasts of input i against those of input j for all common cases ----
 AgainstSeries(X) == <<Series("", QS(F(Pooled(X, 1))), QS(F(Pooled(X, 2))))>>
-\* ---- timeseries / taylor / ... : see the second tranche below ----
+\* ---- cond: for every event (of the observations, resp. of the forecasts) the conditional mean of the other quantity ----
+\*   F|O: (median of the observations in the bin, mean of the forecasts whose observation is in the bin)
+\*   O|F: (mean of the observations whose forecast is in the bin, median of the forecasts in the bin)
+SubPairs(p, iv, col) == SelectSeq(p, LAMBDA x : In(iv, x[col]))
+CondSeries(X, bt, ths) ==
+  LET ivs == Intervals(bt, ths)
+      med(s) == IF s = <<>> THEN NaNE ELSE Q(Median(s))
+      mean(s) == IF s = <<>> THEN NaNE ELSE Q(MeanSeq(s))
+  IN  [n \in 1..(2 * X.n) |->
+         LET i == ((n - 1) \div 2) + 1  p == Pooled(X, i) IN
+         IF n % 2 = 1
+         THEN Series(<<"#", i, " (F|O)">>, [k \in DOMAIN ivs |-> med(O(SubPairs(p, ivs[k], 1)))], [k \in DOMAIN ivs |-> mean(F(SubPairs(p, ivs[k], 1)))])
+         ELSE Series(<<"#", i, " (O|F)">>, [k \in DOMAIN ivs |-> mean(O(SubPairs(p, ivs[k], 2)))], [k \in DOMAIN ivs |-> med(F(SubPairs(p, ivs[k], 2)))])]
+\* ---- timeseries: per input and initialisation time, the forecast (mean over locations) against valid time in days ----
+TimeSeriesSeries(X) ==
+  LET nT == Len(X.T)
+      fc(i, t, l) == LET vals == SelectSeq([k \in DOMAIN X.S |-> X.adj[i, "fcst", <<t, l, X.S[k]>>]], LAMBDA v : IsFinite(v)) IN
+                     IF vals = <<>> THEN NaNE ELSE Q(MeanSeq(vals))
+  IN  [n \in 1..(X.n * nT) |->
+         LET i == ((n - 1) \div nT) + 1  d == ((n - 1) % nT) + 1 IN
+         Series(IF d = 1 THEN InputLabel(i) ELSE "", [k \in DOMAIN X.L |-> Q(Add(Frac(X.T[d], 86400), Frac(X.L[k], 24)))],
+                [k \in DOMAIN X.L |-> fc(i, X.T[d], X.L[k])])]
 
 \* every valid value falls in exactly one bin of a binned diagram whose events partition the line
 EveryValueInOneBin(v, bt, ths) ==
